@@ -18,6 +18,7 @@ RULE = (
     "currents (dict or callable, integer multiples of a decimal quantum such as 0.1/0.2/-0.3, exact rational sum 0) x screening on/off "
     "x adaptive on/off x unit system x optional thermalisation stage (after which the clock of a time-dependent current restarts), 5..40 steps, every recorded frame checked at every site; non-trivial = some frame has a "
     "terminal carrying non-zero current and max|Js| > 1e-6; distinct by spec hash"
+    "; also contact pads reaching over a hole rim and callables that update one dict in place"
 )
 ASSUMPTIONS = [
     "terminal membership of boundary edges is recomputed by winding number; edge centres within 1e-9 of a terminal polygon's outline make the case ambiguous and it is discarded (counted)",
